@@ -13,7 +13,7 @@ RULE = (
 )
 ASSUMPTIONS = [
     "bounds as C01",
-    "fuel budget 3e6 jump/branch events (largest terminating case of these spaces uses < 1e5 on the repaired tree)",
+    "fuel = JUMP-event budget: 2e7 for the micro spaces (their cases use < 1e4), 3e8 for the structured family, 1.5e9 for the enumeration family (largest legitimate use measured: 2e7)",
     "tap names the nested function analyze(); if it cannot attach the black-box verdict checks still run and evidence "
     "reports tap_not_attached",
 ]
